@@ -220,6 +220,26 @@ pub fn run_c20(ctx: &Ctx) -> ! {
                 let (b, _) = with_len_mode(&mut rng, f);
                 cases.push(b);
             }
+            // two pairs of position reports whose zone-index rounding is an exact tie
+            // (59 YZ0 - 60 YZ1 = -65536 (2t + 1)): floor(x + 1/2) and round() differ there
+            for _ in 0..2 {
+                let t = rng.below(30) as i64;
+                let rhs = 65536 * (2 * t + 1);
+                let base = (rhs % 59 + 59) % 59;
+                let yz1 = base + 59 * (rng.below(((131071 - base) / 59) as u64 + 1) as i64);
+                let yz0 = (60 * yz1 - rhs) / 59;
+                if (60 * yz1 - rhs) % 59 != 0 || !(0..131072).contains(&yz0) {
+                    continue;
+                }
+                for (parity, yz) in [(0u64, yz0), (1u64, yz1)] {
+                    let mut f = gen_frame_df(&mut rng, 17);
+                    let mut me = gen_me(&mut rng, 11);
+                    bits::set(&mut me, 22, 1, parity);
+                    bits::set(&mut me, 23, 17, yz as u64);
+                    f[4..11].copy_from_slice(&me);
+                    cases.push(f);
+                }
+            }
             let mut prev = None;
             let mut reqs = vec!["R".to_string()];
             reqs.extend(cases.iter().map(|b| format!("F {}", bits::hex(b))));
